@@ -183,17 +183,8 @@ def replay(v):
         if any(fn in repr(c["prog"]) for fn in ir.SETUP_FNS):
             run_nested(a, {"prog": c["prog"]})  # setup nodes: the outcome of a call depends on the calls before it
             return a.violations, None
-        d, ns, src = build(c["prog"], c["config"], c["is_async"])
-        args = tuple(c["args"])
-        if c["is_async"]:
-            async def op():
-                return await d(*args)
-        else:
-            def op():
-                return d(*args)
-        res = H.run_controlled(op, prefix=tuple(v["prefix"]), is_async=c["is_async"])
-        compare(a, c, c["prog"], args, res, ir.ref_eval(c["prog"], args), src)
-        return a.violations, res.trace
+        from ..prog import replay_built
+        return replay_built(a, v)
     if v["kind"] == "debug_selection_depends_on_declaration_order":
         from ..acc import Acc
         a = Acc(ID, 0, 1, 600)
